@@ -350,7 +350,7 @@ def ample_knobs(s, op, plan):
     k = dict(op.get("knobs") or {})
     solver = s.solver_name
     inner = B.INNER_BUDGET.get(solver)
-    k["max_iter"] = {"FISTA": 30000, "LBFGS": 3000, "GramCD": 5000, "PDCD_WS": 300}.get(solver, 200)
+    k["max_iter"] = {"FISTA": 30000, "LBFGS": 3000, "GramCD": 20000, "PDCD_WS": 300}.get(solver, 200)
     if inner:
         k[inner] = 5000 if solver == "PDCD_WS" else {"max_epochs": 3000, "max_pn_iter": 300}[inner]
     return k
@@ -392,6 +392,7 @@ def run_quiesce(s, J, op, plan, degenerate, results, counts):
     # logistic only when the regularisation keeps the solution away from infinity)
     easy = (gen.get("rho", 1) <= 0.9 and gen.get("scale_decades", 9) <= 1.0 and not degenerate
             and bool(pr.absX.any(axis=0).all()) and pr.pen.convex
+            and pr.n >= pr.p + (1 if res["fi"] else 0)       # underdetermined problems converge slowly
             and (quad_like or (s.dname in ("Logistic", "LogisticGroup") and frac >= 0.1
                                and not res["fi"]))
             and tol >= 1e-9)
